@@ -1434,12 +1434,14 @@ func asUncatchableException(v interface{}) error {
 func (r *Runtime) RunProgram(p *Program) (result Value, err error) {
 	vm := r.vm
 	recursive := len(vm.callStack) > 0
+	vm.vt("ApiEnter", "RunProgram")
 	defer func() {
 		if recursive {
 			vm.sp -= 2
 			vm.popCtx()
 		} else {
 			vm.callStack = vm.callStack[:len(vm.callStack)-1]
+			vm.vt("CtxAdj", "top")
 		}
 		if x := recover(); x != nil {
 			if ex := asUncatchableException(x); ex != nil {
@@ -1447,9 +1449,13 @@ func (r *Runtime) RunProgram(p *Program) (result Value, err error) {
 				if len(vm.callStack) == 0 {
 					r.leaveAbrupt()
 				}
+				vm.vt("ApiExit", "uncatchable")
 			} else {
+				vm.vt("ApiExit", "foreign")
 				panic(x)
 			}
+		} else {
+			vm.vt("ApiExit", verifOutcome(err))
 		}
 	}()
 	if recursive {
@@ -1466,6 +1472,7 @@ func (r *Runtime) RunProgram(p *Program) (result Value, err error) {
 		vm.sp = sp + 2
 	} else {
 		vm.callStack = append(vm.callStack, context{})
+		vm.vt("CtxAdj", "top")
 	}
 	vm.prg = p
 	vm.pc = 0
@@ -2502,6 +2509,7 @@ func AssertConstructor(v Value) (Constructor, bool) {
 }
 
 func (r *Runtime) runWrapped(f func()) (err error) {
+	r.vm.vt("ApiEnter", "runWrapped")
 	defer func() {
 		if x := recover(); x != nil {
 			if ex := asUncatchableException(x); ex != nil {
@@ -2509,9 +2517,13 @@ func (r *Runtime) runWrapped(f func()) (err error) {
 				if len(r.vm.callStack) == 0 {
 					r.leaveAbrupt()
 				}
+				r.vm.vt("ApiExit", "uncatchable")
 			} else {
+				r.vm.vt("ApiExit", "foreign")
 				panic(x)
 			}
+		} else {
+			r.vm.vt("ApiExit", verifOutcome(err))
 		}
 	}()
 	ex := r.vm.try(f)
@@ -2834,6 +2846,7 @@ func (r *Runtime) getHash() *maphash.Hash {
 
 // called when the top level function returns normally (i.e. control is passed outside the Runtime).
 func (r *Runtime) leave() {
+	r.vm.vt("Leave", "")
 	var jobs []func()
 	for len(r.jobQueue) > 0 {
 		jobs, r.jobQueue = r.jobQueue, jobs[:0]
@@ -2849,6 +2862,7 @@ func (r *Runtime) leave() {
 func (r *Runtime) leaveAbrupt() {
 	r.jobQueue = nil
 	r.ClearInterrupt()
+	r.vm.vt("LeaveAbrupt", "")
 }
 
 func nilSafe(v Value) Value {
